@@ -651,38 +651,46 @@ def flow_phase_test(ctx, lines, src):
 
 
 def exit_code_test(ctx):
-    """a real SIGTERM delivered to a child process running FlowSampler: exit code = configured, checkpoint written"""
-    tmp = tempfile.mkdtemp(prefix="c13e_")
-    try:
-        pid = os.fork()
-        if pid == 0:
-            try:
-                import logging
-                logging.disable(logging.CRITICAL)
-                from nessai.flowsampler import FlowSampler
-                fs = FlowSampler(_model(), output=tmp, nlive=10, resume=False, plot=False, exit_code=77, signal_handling=True,
-                                 uninformed_proposal=Scripted, uninformed_proposal_kwargs={"queue": [(k + 2, k + 1) for k in range(10)]},
-                                 maximum_uninformed=np.inf, seed=1, log_on_iteration=False)
-                fs.ns.initialise(live_points=True)
-                os.kill(os.getpid(), signal.SIGTERM)
-                for _ in range(1000):
-                    pass
-                os._exit(3)
-            except SystemExit as e:
-                os._exit(int(e.code) if isinstance(e.code, int) else 4)
-            except BaseException:
-                import traceback
-                traceback.print_exc()
-                os._exit(5)
-        _, status = os.waitpid(pid, 0)
-        code = os.waitstatus_to_exitcode(status)
-        has_ckpt = any(f.endswith(".pkl") for f in os.listdir(tmp))
-        case = {"signal": "SIGTERM", "configured_exit_code": 77, "observed": code, "checkpoint_written": has_ckpt}
-        if code != 77 or not has_ckpt:
-            ctx.oracle_fail("FlowSampler.safe_exit:exit-code", f"handler exited with {code} (configured 77), checkpoint written: {has_ckpt}", case)
-        ctx.case(("exit-code", code), True, case, kind="exit-code")
-    finally:
-        shutil.rmtree(tmp, ignore_errors=True)
+    """a real signal delivered to a child process running FlowSampler: exit code = configured, checkpoint written.
+    Every signal the handler is installed for x several configured codes, including the legal value 0 (seeded change
+    C13-c: `exit_code or 130`)."""
+    combos = [(signal.SIGTERM, 77), (signal.SIGTERM, 0), (signal.SIGINT, 0), (signal.SIGALRM, 1), (signal.SIGINT, 130),
+              (signal.SIGALRM, 0)]
+    if not ctx.quick:
+        combos += [(signal.SIGTERM, 255), (signal.SIGINT, 2), (signal.SIGALRM, 64)]
+    for sig, want in combos:
+        tmp = tempfile.mkdtemp(prefix="c13e_")
+        try:
+            pid = os.fork()
+            if pid == 0:
+                try:
+                    import logging
+                    logging.disable(logging.CRITICAL)
+                    from nessai.flowsampler import FlowSampler
+                    fs = FlowSampler(_model(), output=tmp, nlive=10, resume=False, plot=False, exit_code=want, signal_handling=True,
+                                     uninformed_proposal=Scripted, uninformed_proposal_kwargs={"queue": [(k + 2, k + 1) for k in range(10)]},
+                                     maximum_uninformed=np.inf, seed=1, log_on_iteration=False)
+                    fs.ns.initialise(live_points=True)
+                    os.kill(os.getpid(), sig)
+                    for _ in range(1000):
+                        pass
+                    os._exit(3)
+                except SystemExit as e:
+                    os._exit(int(e.code) if isinstance(e.code, int) else (0 if e.code is None else 4))
+                except BaseException:
+                    import traceback
+                    traceback.print_exc()
+                    os._exit(5)
+            _, status = os.waitpid(pid, 0)
+            code = os.waitstatus_to_exitcode(status)
+            has_ckpt = any(f.endswith(".pkl") for f in os.listdir(tmp))
+            case = {"signal": signal.Signals(sig).name, "configured_exit_code": want, "observed": code, "checkpoint_written": has_ckpt}
+            if code != want or not has_ckpt:
+                ctx.oracle_fail("FlowSampler.safe_exit:exit-code",
+                                f"{signal.Signals(sig).name}: handler exited with {code} (configured {want}), checkpoint written: {has_ckpt}", case)
+            ctx.case(("exit-code", int(sig), want, code), True, case, kind="exit-code")
+        finally:
+            shutil.rmtree(tmp, ignore_errors=True)
 
 
 def ins_test(ctx):
